@@ -234,6 +234,8 @@ pub struct RouterWorld {
     pub pick_mode: u8,
     /// the configuration uses the random strategy
     pub pick_enabled: bool,
+    /// print every packet a client receives (VERIF_TRACE_RX, replay debugging)
+    pub trace_rx: bool,
 }
 
 fn router_config(cfg: &Cfg) -> RouterConfig {
@@ -594,6 +596,9 @@ impl RouterWorld {
                 }
                 _ => {}
             }
+        }
+        if self.trace_rx {
+            eprintln!("    rx {} {}", NAMES[ci], format!("{rx:?}").chars().take(160).collect::<String>());
         }
         self.model.received(ci, &rx);
     }
@@ -1029,6 +1034,7 @@ impl World for RouterWorld {
             stale_disc: vec![],
             pick_mode: 0,
             pick_enabled: cfg.strategy == 1,
+            trace_rx: std::env::var("VERIF_TRACE_RX").is_ok(),
             pad: cfg.pad,
         };
         for a in cfg.prelude.iter() {
